@@ -44,7 +44,8 @@ def _fp_light(lt):
 
 
 def _set(x):
-    return None if x is None else set(x)
+    # "no reference" may be None or an empty set: both denote the same thing
+    return set() if x is None else set(x)
 
 
 def sut_abstract(net):
@@ -53,8 +54,8 @@ def sut_abstract(net):
         sl = la.stop_line
         L[la.lanelet_id] = {
             "pred": set(la.predecessor), "succ": set(la.successor),
-            "adjl": la.adj_left, "adjl_same": la.adj_left_same_direction,
-            "adjr": la.adj_right, "adjr_same": la.adj_right_same_direction,
+            "adjl": la.adj_left, "adjl_same": la.adj_left_same_direction if la.adj_left is not None else None,
+            "adjr": la.adj_right, "adjr_same": la.adj_right_same_direction if la.adj_right is not None else None,
             "signs": set(la.traffic_signs), "lights": set(la.traffic_lights),
             "stop": None if sl is None else {"signs": _set(sl.traffic_sign_ref), "lights": _set(sl.traffic_light_ref)},
             "fp": _fp_lanelet(la)}
@@ -152,7 +153,7 @@ class Model:
         a["S"].pop(x)
         for la in a["L"].values():
             la["signs"].discard(x)
-            if la["stop"] is not None and la["stop"]["signs"] is not None:
+            if la["stop"] is not None:
                 la["stop"]["signs"].discard(x)
 
     def remove_light(self, x):
@@ -160,7 +161,7 @@ class Model:
         a["T"].pop(x)
         for la in a["L"].values():
             la["lights"].discard(x)
-            if la["stop"] is not None and la["stop"]["lights"] is not None:
+            if la["stop"] is not None:
                 la["stop"]["lights"].discard(x)
 
     def remove_intersection(self, x):
